@@ -60,6 +60,24 @@ func C18(c *Ctx) {
 	for _, g := range c05Strata() {
 		add(g, false, nil)
 	}
+	// Unicode classes on non-Latin-1 input (range tables shared by all parses)
+	ucl := func(n ...string) *gast.Expr { return gast.Cl(&gast.ClassSpec{UClasses: n}) }
+	words := &gast.Grammar{Rules: []*gast.Rule{
+		{Name: "S", Expr: gast.A(gast.Star(gast.C(gast.Ref("U"), gast.Ref("L"), gast.Ref("O"))), 1, mon.Spec{})},
+		{Name: "U", Expr: gast.A(gast.Plus(ucl("Lu")), 2, mon.Spec{R: 2})},
+		{Name: "L", Expr: gast.A(gast.Plus(ucl("Ll", "Greek")), 3, mon.Spec{R: 2})},
+		{Name: "O", Expr: gast.A(gast.Plus(gast.C(ucl("Nd", "Cyrillic"), gast.Cl(&gast.ClassSpec{UClasses: []string{"L"}, Inverted: true}))), 4, mon.Spec{R: 2})},
+	}}
+	add(words, false, nil)
+	add(words.Clone(), false, []string{"-optimize-parser"})
+	for _, p := range []*gast.Profile{sp, pp} {
+		p.PUClass = 45
+		p.Alphabets = [][]rune{[]rune("aΩя世"), []rune("bДλ\n"), []rune("ab")}
+	}
+	for i := 0; i < nEach; i++ {
+		add(gast.Generate(rng, sp), false, nil)
+		add(gast.Generate(rng, pp), false, []string{"-optimize-basic-latin"})
+	}
 	// one Built per distinct flag set (BuildUnits applies the same flag sets to all grammars)
 	type grp struct {
 		flags []string
@@ -111,6 +129,11 @@ func C18(c *Ctx) {
 				ins = lrInputs(u.G, rng, 25)
 			} else {
 				ins = c.inputsFor(u.G, rng, 25, 10, false)
+			}
+			if u.G.Rule("U") != nil && u.G.Rule("O") != nil {
+				for _, w := range []string{"ΑΒΓ αβγ 123", "ПРИВЕТ мир", "Hello Wörld ǅ", "世界 ΩΩ ωω", "ЖЖжжЖЖ", "αБγДε", "ABC abc", "ÀÉÎ õü"} {
+					ins = append(ins, []byte(w), []byte(w+w))
+				}
 			}
 			for ii, in := range ins {
 				if len(in) > 120 {
